@@ -11,8 +11,9 @@ from common import *
 
 NAME = 'c07_header'
 PAY = 'src/rpm/payload.rs'
-HEX = (re.compile(r'header\.extend\(format!\("\{:08x\}", ((?:[^()]|\([^()]*\))*)\)\.as_bytes\(\)\);'), r'header.extend_from_slice(hex8(\1).as_slice());', None,
-       'R42-format!("{:08x}", x): eight lowercase hex digits of a value below 2^32')
+HEX = (re.compile(r'format!\("\{:08x\}", ((?:[^()]|\([^()]*\))*)\)'), r'hex8(\1)', None,
+       'R42-format!("{:08x}", x): eight lowercase hex digits of a value below 2^32 (a stand-in string type)')
+EXTB = (re.compile(r'header\.extend\(((?:[^()]|\((?:[^()]|\([^()]*\))*\))*\.as_bytes\(\))\);'), r'header.extend_from_slice(\1);', None, 'R12-Vec::extend with a byte slice')
 MAGIC = (re.compile(r'header\.extend\((MAGIC_NUMBER_NEWCRC|MAGIC_NUMBER_NEWASCII|STRIPPED_CPIO_MAGIC_NUMBER)\);'), r'header.extend_from_slice(magic_bytes(Magic::\1));', None,
          'R24-byte-string constants as an uninterpreted 6-byte value per kind')
 PADX = ('header.extend(pad);', 'header.extend_from_slice(pad.as_slice());', None, 'R12-Vec::extend with a Vec')
@@ -37,10 +38,16 @@ pub uninterp spec fn hex8_spec(x: int) -> Seq<u8>;
 pub trait Hex8Arg { spec fn val(&self) -> int; }
 impl Hex8Arg for u32 { open spec fn val(&self) -> int { *self as int } }
 impl Hex8Arg for usize { open spec fn val(&self) -> int { *self as int } }
+/// the String `format!("{:08x}", x)` returns: only its bytes are used
+pub struct HexStr { pub bytes: Ghost<Seq<u8>> }
+impl HexStr {
+    #[verifier::external_body]
+    pub fn as_bytes(&self) -> (r: &[u8]) ensures r@ == self.bytes@ { unimplemented!() }
+}
 #[verifier::external_body]
-pub fn hex8<T: Hex8Arg>(x: T) -> (r: Vec<u8>)
+pub fn hex8<T: Hex8Arg>(x: T) -> (r: HexStr)
     requires 0 <= x.val() <= 0xffff_ffff,        // wider values print more than eight digits
-    ensures r@ == hex8_spec(x.val()), r@.len() == 8,
+    ensures r.bytes@ == hex8_spec(x.val()), r.bytes@.len() == 8,
 { unimplemented!() }
 pub open spec fn padlen(len: int) -> int { (4 - len % 4) % 4 }
 /// V:c07_payload:pad
@@ -61,8 +68,7 @@ pub open spec fn newc_header(b: Builder, file_size: u32, checksum: Option<u32>) 
 impl Builder {
 '''),
     Fn(PAY, 'into_header', impl='impl Builder',
-       subs=[ret(), HEX, MAGIC, PADX,
-             ('header.extend(self.name.as_bytes());', 'header.extend_from_slice(string_bytes(&self.name));', 1, 'A-UTF8'),
+       subs=[ret(), ('header.extend(self.name.as_bytes());', 'header.extend_from_slice(string_bytes(&self.name));', 1, 'A-UTF8'), HEX, EXTB, MAGIC, PADX,
              ('self.name.len() + 1', 'string_len(&self.name) + 1', 1, 'A-UTF8: byte length'),
              ('Vec::with_capacity(HEADER_LEN)', 'Vec::<u8>::with_capacity(HEADER_LEN)', 1, 'R9-type-annotation'),
              ],
@@ -74,7 +80,7 @@ impl Builder {
        prologue='proof { assert(zeros(0) =~= Seq::<u8>::empty()); }'),
     Raw('}\n'),
     Fn(PAY, 'stripped_cpio_header',
-       subs=[ret(), HEX, MAGIC, PADX,
+       subs=[ret(), HEX, EXTB, MAGIC, PADX,
              ('Vec::with_capacity(STRIPPED_CPIO_HEADER_LEN)', 'Vec::<u8>::with_capacity(STRIPPED_CPIO_HEADER_LEN)', 1, 'R9-type-annotation')],
        spec='''    ensures
         r@ =~= magic_seq(Magic::STRIPPED_CPIO_MAGIC_NUMBER) + hex8_spec(file_index as int) + zeros(2),
